@@ -108,9 +108,12 @@ pub fn policy(_tier: Tier, w: &Arc<World>) -> Scn {
         let sent_opts = xc.opts.clone();
         // a client may use one socket for several requests in a row (the earlier transfer is long over)
         let reuse = if i > 0 && d.chance("swarm.req.reuse_endpoint", 1, 3) { Some(reqs[d.range("swarm.req.reuse_which", i as u32) as usize].peer) } else { None };
+        // clients may sit on any source port, also a privileged one
+        let sport: u16 = if d.chance("swarm.req.low_source_port", 1, 8) { [1023u16, 1, 512, 68][(i % 4) as usize] + 0 } else { 0 };
+        let sport = if reqs.iter().any(|r: &ReqInfo| r.client.port() == sport) { 0 } else { sport };
         let (peer, client) = match (write, reuse) {
-            (true, None) => w.add_peer(Box::new(Writer::new(xc, data.to_vec())), srv.v6, 0),
-            (false, None) => w.add_peer(Box::new(Reader::new(xc)), srv.v6, 0),
+            (true, None) => w.add_peer(Box::new(Writer::new(xc, data.to_vec())), srv.v6, sport),
+            (false, None) => w.add_peer(Box::new(Reader::new(xc)), srv.v6, sport),
             (true, Some(k)) => w.add_peer_on(Box::new(Writer::new(xc, data.to_vec())), k),
             (false, Some(k)) => w.add_peer_on(Box::new(Reader::new(xc)), k),
         };
@@ -381,6 +384,13 @@ pub fn options(_tier: Tier, w: &Arc<World>) -> Scn {
     }
     if d.chance("opt.unknown.tail", 1, 5) {
         opts.push(("rollover".into(), "0".into()));
+    }
+    // a long run of unknown options in front: they are ignored, however many there are
+    if !opts.is_empty() && d.chance("opt.many_unknown", 1, 10) {
+        let k = 8 + d.range("opt.many_unknown.count", 13) as usize;
+        for j in 0..k {
+            opts.insert(0, (format!("x{j}"), "1".to_string()));
+        }
     }
     // rarely a client names an option twice with different values; whatever is acknowledged is what is used
     if d.chance("opt.repeat", 1, 8) {
